@@ -259,21 +259,30 @@ Example rx_scrub_run_computed :
   sr_tags r = [(K_SC_DATA, [1; 0; 1; 1]%N); (K_SC_PAR_DATA, [2; 1]%N)] /\ sr_bad r = [1; 2] /\ sr_refreshed r = [0] /\ scrub_fails r = true.
 Proof. vm_compute. repeat split; reflexivity. Qed.
 
-(* OPEN finding F-C01-grown-file-mtime-not-restored, excluded from run_fix_restores by `no_larger`: a file that grew (2048
-   bytes for 1024 recorded, newer time-stamp) is cut back to its recorded size by fix (error: Size error / fixed: Fixed size),
-   its content is the recorded one, exit status 0 -- but its time-stamp is the time of the truncation, not the recorded
-   one (100): nothing sets FIXED for a size-only repair, so file_post never restores the time *)
-Example rx_grown_file_mtime_not_restored :
+(* a file that grew (2048 bytes for 1024 recorded, newer time-stamp): outside `no_larger`, hence outside run_fix_restores, but
+   handled by the tool and by the model (finding F-C01-grown-file-mtime-not-restored, repaired by 993feac): fix cuts it back to
+   its recorded size and content (error: Size error / fixed: Fixed size), flags it FIXED (open_larger_fix), reports it recovered
+   and gives it its recorded time-stamp back (file_post_at); exit status 0, and a following check says nothing *)
+Example rx_grown_file_restored :
   let fs := [Some [mkFF 1 2048 200 0 1 [11; 55]%N]; Some [mkFF 2 1024 100 0 2 [12]%N]] in
   let out := check_run x_hashf x_padz x_truncf x_bs 2 false x_newino 999 x_fix x_c x_par_ok fs [] (seq 0 1) in
+  let out' := check_run x_hashf x_padz x_truncf x_bs 2 false x_newino 999 x_check x_c (r_par (out_st out)) (r_fs (out_st out)) [] (seq 0 1) in
   ~ no_larger x_c fs
-  /\ fs_find (r_fs (out_st out)) 0 1 = Some (mkFF 1 1024 999 0 1 [11%N])
-  /\ out_fail out = false /\ map fst (r_tags (out_st out)) = [K_ERR_SIZE; K_FIXED_SIZE].
+  /\ r_fs (out_st out) = x_fs_ok /\ r_par (out_st out) = x_par_ok
+  /\ r_tags (out_st out) = [(K_ERR_SIZE, [0; 0; 1]%N); (K_FIXED_SIZE, [0; 0; 1]%N); (K_ST_RECOVERED, [0; 1]%N)]
+  /\ out_fail out = false /\ r_err (out_st out) = 1 /\ r_rec (out_st out) = 1 /\ r_unrec (out_st out) = 0
+  /\ r_tags (out_st out') = [] /\ out_fail out' = false.
 Proof.
   cbn zeta. split.
   - intro H. specialize (H 0 0 x_f1 0 (mkFB SBlk 0 (x_hashf 11%N 1024%N)) (mkFF 1 2048 200 0 1 [11; 55]%N) eq_refl eq_refl). cbn in H. lia.
   - vm_compute. repeat split; reflexivity.
 Qed.
+(* check mode: the grown file gives exactly one Size error, nothing is touched *)
+Example rx_grown_file_check :
+  let fs := [Some [mkFF 1 2048 200 0 1 [11; 55]%N]; Some [mkFF 2 1024 100 0 2 [12]%N]] in
+  let out := check_run x_hashf x_padz x_truncf x_bs 2 false x_newino 999 x_check x_c x_par_ok fs [] (seq 0 1) in
+  r_tags (out_st out) = [(K_ERR_SIZE, [0; 0; 1]%N)] /\ out_fail out = true /\ r_err (out_st out) = 1 /\ r_fs (out_st out) = fs.
+Proof. vm_compute. repeat split; reflexivity. Qed.
 
 (* why `recoverable` stays a hypothesis of run_check_exact: check.c compares the parity with the data only after the data of the
    stripe has been repaired in memory.  Stripe 0 with BOTH data blocks damaged and level 1 overwritten is unrecoverable: check
